@@ -19,20 +19,22 @@ portfolio the held assets pairwise distinct (both are dictionaries in the Python
 new broker and is preserved by every op, `update` included (`C15_wf_new`, `C15_wf_run`).
 
 What is proved
-* `C15_broker`   — every op except `update`, refused with any error, leaves `obs` unchanged; for `applyTxn`
-                   this is for the documented refusals (unknown portfolio, or transaction time earlier than
-                   the portfolio's clock).
-* `C15_applyTxn_position_error` — the remaining `applyTxn` refusal (raised inside `Position.transact`:
-                   time earlier than the *position's* clock, or a non-positive price) is a PARTIAL UPDATE in the
-                   model (and in the code): the net quantity of that asset has already moved by `t.qty`;
-                   cash, history, queue, other positions and other portfolios are unchanged, and `obs` does
-                   change.  This is exactly the case excluded from `C15_broker`.
+* `C15_broker`   — every op except `update`, refused with any error, leaves `obs` unchanged.  No side
+                   condition on `applyTxn` any more: since fix F4 `Position.transact` validates the trade's
+                   price and time *before* it moves the running quantities, so a refusal raised from inside
+                   it changes at most that position's clock (not observed).
+* `C15_applyTxn_refused` — the `applyTxn` instance, stated on its own: a refused `applyTxn` of any kind
+                   (unknown portfolio; time earlier than the portfolio's clock; time earlier than the
+                   *position's* clock; non-positive price) leaves `obs` unchanged.
+                   `C15_applyTxn_position_refusal` identifies the refusals that come from inside
+                   `Position.transact` (formerly a partial update — `obs` did change; now it does not).
 * `C15_outcomes` — closed form of the outcome of every op except `update` (the complete error-kind table,
-                   both directions).  `C15_kind` / `C15_refuses` list the documented refusals one by one.
+                   both directions).  `C15_kind` / `C15_refuses` list the documented refusals one by one
+                   (`PreconditionFails` now also lists the two refusals raised by `Position.transact`).
 * `C15_getters`  — kinds of the getter errors.
 * `C15_sequences`— FULL FORM PROVED: deleting from a run every op that is refused when its turn comes
-                   (`acceptedOps`) gives a run with the same final `obs`, for every run without `update` whose
-                   refused `applyTxn`s are documented refusals (`Admissible`).  `obs`-equality alone is not
+                   (`acceptedOps`) gives a run with the same final `obs`, for every run without `update`
+                   (`NoUpdate`; no condition on refused `applyTxn`s any more).  `obs`-equality alone is not
                    preserved by `step` (a refused op may advance a clock, which is not in `obs`, and change
                    whether a later op is refused: `C15Example.obs_not_a_congruence`); the proof uses the
                    simulation `Le` of `QsProofs/Lemmas/BrokerSim.lean` ("equal up to clocks, the filtered run
@@ -62,14 +64,10 @@ theorem C15_wf_step (b : Broker α) (op : Op α) (hw : WF15 b) : WF15 (step b op
 theorem C15_wf_run (b : Broker α) (ops : List (Op α)) (hw : WF15 b) : WF15 (run b ops) :=
   ⟨run_unique b ops hw.1, run_posUnique b ops hw.1 hw.2⟩
 
-/-- the refusal of an `applyTxn` is a documented one: unknown portfolio, or time before the portfolio clock -/
-def DocumentedTxnRefusal (σ : Broker α) (op : Op α) : Prop :=
-  ∀ pid t, op = .applyTxn pid t → ∀ en, σ.find? pid = some en → t.time < en.pf.clock
-
-/-- **C15 (broker).** Any op other than `update` that is refused leaves the observable state unchanged
-(for `applyTxn`: refused for an unknown portfolio or for a time earlier than the portfolio's clock). -/
+/-- **C15 (broker).** Any op other than `update` that is refused — with whatever error, for whatever
+reason — leaves the observable state unchanged. -/
 theorem C15_broker (σ : Broker α) (hw : WF15 σ) (op : Op α) (e : Err)
-    (hnu : ∀ t q, op ≠ .update t q) (hdoc : DocumentedTxnRefusal σ op)
+    (hnu : ∀ t q, op ≠ .update t q)
     (h : (step σ op).2 = some e) : obs (step σ op).1 = obs σ := by
   cases op with
   | subAcct a => simp only [step] at h ⊢; rw [subAcct_err σ a h]
@@ -80,7 +78,7 @@ theorem C15_broker (σ : Broker α) (hw : WF15 σ) (op : Op α) (e : Err)
   | submit pid o => simp only [step] at h ⊢; rw [submit_err σ pid o h]
   | update t q => exact absurd rfl (hnu t q)
   | setClock t => cases h
-  | applyTxn pid t => exact applyTxn_err_obs σ pid t hw.1 (hdoc pid t rfl)
+  | applyTxn pid t => exact applyTxn_refused_obs σ pid t hw.1 hw.2 h
   | applyMark pid a p t => exact applyMark_obs σ pid a p t hw.1 hw.2
   | pfSubscribe pid t a => exact pfSubscribe_err_obs σ pid t a hw.1 h
   | pfWithdraw pid t a => exact pfWithdraw_err_obs σ pid t a hw.1 h
@@ -90,27 +88,27 @@ theorem C15_applyMark_unobservable (σ : Broker α) (hw : WF15 σ) (pid asset : 
     obs (step σ (.applyMark pid asset price t)).1 = obs σ :=
   applyMark_obs σ pid asset price t hw.1 hw.2
 
-/-- **C15 (observation: the one partial update).** If `applyTxn pid t` passes the portfolio's own checks
-(portfolio exists, `t.time` not before the portfolio clock) and is nevertheless refused, then the refusal
-comes from `Position.transact`: the asset is held, `t.qty ≠ 0`, and `t.time` is before the *position's*
-clock or `t.price ≤ 0`; the error is a `ValueError`; and the state HAS changed: the net quantity of that
-one position moved by `t.qty` (`bumpObs`), everything else observable is as before. -/
-theorem C15_applyTxn_position_error (σ : Broker α) (hw : WF15 σ) (pid : String) (t : Txn α)
+/-- **C15 (`applyTxn`).** A refused `applyTxn` of any kind leaves the observable state unchanged — also
+when the error is raised from inside `Position.transact` (time earlier than the position's clock, or a
+non-positive price): the validation precedes the update of the running quantities, so such a refusal
+changes at most the position's (and the portfolio's) clock, which `obs` does not contain. -/
+theorem C15_applyTxn_refused (σ : Broker α) (hw : WF15 σ) (pid : String) (t : Txn α) (e : Err)
+    (h : (step σ (.applyTxn pid t)).2 = some e) : obs (step σ (.applyTxn pid t)).1 = obs σ :=
+  applyTxn_refused_obs σ pid t hw.1 hw.2 h
+
+/-- **C15 (the refusal from inside `Position.transact`, formerly the one partial update).** If
+`applyTxn pid t` passes the portfolio's own checks (portfolio exists, `t.time` not before the portfolio
+clock) and is nevertheless refused, then the refusal comes from `Position.transact`: the asset is held,
+`t.qty ≠ 0`, and `t.time` is before the *position's* clock or `t.price ≤ 0`; the error is a `ValueError`;
+and the observable state has NOT changed (in particular the net quantity of that position is what it was). -/
+theorem C15_applyTxn_position_refusal (σ : Broker α) (hw : WF15 σ) (pid : String) (t : Txn α)
     (en : PfEntry α) (hf : σ.find? pid = some en) (ht : ¬ t.time < en.pf.clock) (e : Err)
     (h : (step σ (.applyTxn pid t)).2 = some e) :
     ∃ pos, Positions.find? en.pf.positions t.asset = some pos ∧ t.qty ≠ 0 ∧
       (t.time < pos.clock ∨ t.price ≤ 0) ∧ e = .value ∧
-      obs (step σ (.applyTxn pid t)).1 =
-        (σ.master, σ.entries.map (fun x => if x.pf.id = pid then bumpObs t x else obsPf x)) ∧
-      obs (step σ (.applyTxn pid t)).1 ≠ obs σ :=
-  applyTxn_position_err σ pid t hw.1 hw.2 hf ht h
-
-/-- `bumpObs` spelled out -/
-theorem C15_bumpObs (t : Txn α) (x : PfEntry α) :
-    bumpObs t x =
-      (x.pf.id, x.pf.cash,
-        x.pf.positions.map (fun q => (q.asset, if q.asset = t.asset then q.net + (t.qty : α) else q.net)),
-        x.queue, x.pf.history) := rfl
+      obs (step σ (.applyTxn pid t)).1 = obs σ := by
+  obtain ⟨pos, h1, h2, h3, h4⟩ := applyTxn_position_err σ pid t hf ht h
+  exact ⟨pos, h1, h2, h3, h4, C15_applyTxn_refused σ hw pid t e h⟩
 
 /-! ## Outcomes -/
 
@@ -289,6 +287,12 @@ inductive PreconditionFails (σ : Broker α) : Op α → Prop
       σ.find? pid = none → PreconditionFails σ (.applyTxn pid t)
   | applyTxn_earlier (pid : String) (t : Txn α) (en : PfEntry α) :
       σ.find? pid = some en → t.time < en.pf.clock → PreconditionFails σ (.applyTxn pid t)
+  | applyTxn_position_earlier (pid : String) (t : Txn α) (en : PfEntry α) (pos : Position α) :
+      σ.find? pid = some en → Positions.find? en.pf.positions t.asset = some pos → t.qty ≠ 0 →
+      t.time < pos.clock → PreconditionFails σ (.applyTxn pid t)
+  | applyTxn_nonpositive_price (pid : String) (t : Txn α) (en : PfEntry α) (pos : Position α) :
+      σ.find? pid = some en → Positions.find? en.pf.positions t.asset = some pos → t.qty ≠ 0 →
+      t.price ≤ 0 → PreconditionFails σ (.applyTxn pid t)
   | applyMark_unknown (pid asset : String) (price : α) (t : Int) :
       σ.find? pid = none → PreconditionFails σ (.applyMark pid asset price t)
   | applyMark_negative (pid asset : String) (price : α) (t : Int) (en : PfEntry α) (pos : Position α) :
@@ -313,19 +317,12 @@ theorem PreconditionFails.not_update {σ : Broker α} {op : Op α} (h : Precondi
     ∀ t q, op ≠ .update t q := by
   intro t q; cases h <;> simp
 
-theorem PreconditionFails.documented {σ : Broker α} {op : Op α} (h : PreconditionFails σ op) :
-    DocumentedTxnRefusal σ op := by
-  intro pid t hop en hf
-  cases h <;> try (cases hop)
-  · rename_i h; rw [h] at hf; cases hf
-  · rename_i en' h ht; rw [h] at hf; cases hf; exact ht
-
 /-- a documented precondition failure is always refused, never silently accepted -/
 theorem PreconditionFails.refused {σ : Broker α} {op : Op α} (h : PreconditionFails σ op) :
     ∃ e, (step σ op).2 = some e := by
   obtain ⟨k1, k2, k3, k4, k5, k6, k7, k8, k9, k10, k11, k12, k13, k14, k15, k16, k17, k18, k19, k20,
     k21, k22, k23, k24⟩ := C15_kind σ
-  obtain ⟨-, -, -, o4, o5, -⟩ := C15_outcomes σ
+  obtain ⟨-, -, -, o4, o5, -, -, o8, -⟩ := C15_outcomes σ
   cases h with
   | subAcct_negative a h => exact ⟨_, k1 a h⟩
   | wdAcct_negative a h => exact ⟨_, k2 a h⟩
@@ -348,6 +345,16 @@ theorem PreconditionFails.refused {σ : Broker α} {op : Op α} (h : Preconditio
   | submit_unknown pid o h => exact ⟨_, k14 pid o h⟩
   | applyTxn_unknown pid t h => exact ⟨_, k15 pid t h⟩
   | applyTxn_earlier pid t en hf h => exact ⟨_, k21 pid t en hf h⟩
+  | applyTxn_position_earlier pid t en pos hf hp hq h =>
+    rw [o8, hf]; simp only [hp]
+    by_cases hc : t.time < en.pf.clock
+    · exact ⟨_, if_pos hc⟩
+    · rw [if_neg hc, if_neg hq, if_pos (Or.inl h)]; exact ⟨_, rfl⟩
+  | applyTxn_nonpositive_price pid t en pos hf hp hq h =>
+    rw [o8, hf]; simp only [hp]
+    by_cases hc : t.time < en.pf.clock
+    · exact ⟨_, if_pos hc⟩
+    · rw [if_neg hc, if_neg hq, if_pos (Or.inr h)]; exact ⟨_, rfl⟩
   | applyMark_unknown pid asset price t h => exact ⟨_, k16 pid asset price t h⟩
   | applyMark_negative pid asset price t en pos hf hp h => exact ⟨_, k24 pid asset price t en pos hf hp h⟩
   | pfSubscribe_unknown pid t a h => exact ⟨_, k17 pid t a h⟩
@@ -364,68 +371,59 @@ error kind is given by `C15_kind` / `C15_outcomes`. -/
 theorem C15_refuses (σ : Broker α) (hw : WF15 σ) (op : Op α) (h : PreconditionFails σ op) :
     ∃ e, (step σ op).2 = some e ∧ obs (step σ op).1 = obs σ := by
   obtain ⟨e, he⟩ := h.refused
-  exact ⟨e, he, C15_broker σ hw op e h.not_update h.documented he⟩
+  exact ⟨e, he, C15_broker σ hw op e h.not_update he⟩
 
 /-! ## Sequences -/
 
-/-- every op of the list is refused when its turn comes (none is `update`; `applyTxn` refusals documented) -/
+/-- every op of the list is refused when its turn comes (none is `update`) -/
 def AllRefused (σ : Broker α) : List (Op α) → Prop
   | [] => True
-  | o :: os => (∃ e, (step σ o).2 = some e) ∧ (∀ t q, o ≠ .update t q) ∧ DocumentedTxnRefusal σ o ∧
+  | o :: os => (∃ e, (step σ o).2 = some e) ∧ (∀ t q, o ≠ .update t q) ∧
       AllRefused (step σ o).1 os
 
 /-- **C15 (sequences).** Deleting from a run all the ops that are refused when their turn comes
-(`acceptedOps σ ops`; `Admissible`: no `update`, refused `applyTxn`s are documented refusals) gives a run
-with the same final observable state.  (The clocks of the two final states may differ — the filtered run has
-the earlier ones: `run_accepted_le`.) -/
-theorem C15_sequences (σ : Broker α) (hw : WF15 σ) (ops : List (Op α)) (hadm : Admissible σ ops) :
+(`acceptedOps σ ops`) gives a run with the same final observable state, for every run without `update`
+(`NoUpdate ops`).  (The clocks of the two final states may differ — the filtered run has the earlier ones:
+`run_accepted_le`.) -/
+theorem C15_sequences (σ : Broker α) (hw : WF15 σ) (ops : List (Op α)) (hnu : NoUpdate ops) :
     obs (run σ ops) = obs (run σ (acceptedOps σ ops)) :=
-  (run_accepted_le σ σ (Le.refl σ) hw.1 hw.2 ops hadm).obs
+  (run_accepted_le σ σ (Le.refl σ) hw.1 hw.2 ops hnu).obs
 
-/-- `acceptedOps` and `Admissible` spelled out -/
+/-- `acceptedOps` and `NoUpdate` spelled out -/
 theorem C15_acceptedOps_cons (σ : Broker α) (o : Op α) (os : List (Op α)) :
     acceptedOps σ (o :: os) =
       if (step σ o).2 = none then o :: acceptedOps (step σ o).1 os else acceptedOps (step σ o).1 os := by
   simp only [acceptedOps]
   cases (step σ o).2 <;> simp
 
-theorem C15_admissible_cons (σ : Broker α) (o : Op α) (os : List (Op α)) :
-    Admissible σ (o :: os) ↔
-      (∀ t q, o ≠ .update t q) ∧ ((step σ o).2 ≠ none → DocumentedTxnRefusal σ o) ∧
-      Admissible (step σ o).1 os := Iff.rfl
+theorem C15_noUpdate_iff (ops : List (Op α)) :
+    NoUpdate ops ↔ ∀ o ∈ ops, ∀ t q, o ≠ .update t q := Iff.rfl
 
-theorem admissible_of_allRefused (σ : Broker α) (ops : List (Op α)) (h : AllRefused σ ops) :
-    Admissible σ ops := by
+theorem noUpdate_of_allRefused (σ : Broker α) (ops : List (Op α)) (h : AllRefused σ ops) :
+    NoUpdate ops := by
   induction ops generalizing σ with
-  | nil => trivial
+  | nil => intro o ho; cases ho
   | cons o os ih =>
-    obtain ⟨-, hnu, hdoc, hrest⟩ := h
-    exact ⟨hnu, fun _ => hdoc, ih _ hrest⟩
+    obtain ⟨-, hnu, hrest⟩ := h
+    intro o' ho'
+    rcases List.mem_cons.mp ho' with rfl | ho'
+    · exact hnu
+    · exact ih _ hrest o' ho'
 
 theorem acceptedOps_allRefused (σ : Broker α) (ops : List (Op α)) (h : AllRefused σ ops) :
     acceptedOps σ ops = [] := by
   induction ops generalizing σ with
   | nil => rfl
   | cons o os ih =>
-    obtain ⟨⟨e, he⟩, -, -, hrest⟩ := h
+    obtain ⟨⟨e, he⟩, -, hrest⟩ := h
     simp only [acceptedOps, he]
     exact ih _ hrest
 
 /-- corollary: a run consisting only of refused ops leaves `obs` unchanged -/
 theorem C15_sequences_all_refused (σ : Broker α) (hw : WF15 σ) (ops : List (Op α))
     (h : AllRefused σ ops) : obs (run σ ops) = obs σ := by
-  rw [C15_sequences σ hw ops (admissible_of_allRefused σ ops h), acceptedOps_allRefused σ ops h]
+  rw [C15_sequences σ hw ops (noUpdate_of_allRefused σ ops h), acceptedOps_allRefused σ ops h]
   rfl
-
-/-- runs without `update` and without `applyTxn` are admissible -/
-theorem admissible_of_plain (σ : Broker α) (ops : List (Op α))
-    (h : ∀ o ∈ ops, (∀ t q, o ≠ .update t q) ∧ (∀ pid t, o ≠ .applyTxn pid t)) : Admissible σ ops := by
-  induction ops generalizing σ with
-  | nil => trivial
-  | cons o os ih =>
-    refine ⟨(h o List.mem_cons_self).1, ?_, ih _ (fun o' ho' => h o' (List.mem_cons_of_mem _ ho'))⟩
-    intro _ pid t ho
-    exact absurd ho ((h o List.mem_cons_self).2 pid t)
 
 end
 end Qs
@@ -479,20 +477,36 @@ example : (step σ (.applyTxn "A" { asset := "X", qty := 1, time := 2, price := 
 example : σ.portfolioCash "C" = .error .value := by decide +kernel
 example : (σ.portfolioEquity "C").toOption = none := by decide +kernel
 
-/-- The partial update (`C15_applyTxn_position_error`) does occur: mark `X` at time 100 (the position's clock
-becomes 100, the portfolio's stays 3), then a transaction at time 50 passes the portfolio check, is refused by
-the position — and the held quantity of `X` has moved from 5 to 6 while cash is unchanged. -/
+/-- The refusal from inside `Position.transact` (`C15_applyTxn_position_refusal`) does occur — and is no
+longer a partial update: mark `X` at time 100 (the position's clock becomes 100, the portfolio's stays 3),
+then a transaction at time 50 passes the portfolio check and is refused by the position; the held quantity
+of `X` is still 5 (before fix F4 it had moved to 6), cash is unchanged, `obs` is unchanged. -/
 noncomputable def σm : Broker ℚ := (step σ (.applyMark "A" "X" 12 100)).1
 noncomputable def lateTxn : Txn ℚ := { asset := "X", qty := 1, time := 50, price := 12, commission := 0 }
+/-- a sale at price 0 of a held asset: refused by `Position.transact` as well -/
+noncomputable def freeTxn : Txn ℚ := { asset := "Y", qty := -7, time := 200, price := 0, commission := 0 }
+
+theorem wf_σm : WF15 σm := C15_wf_step _ _ wf_σ
 
 example : (step σ (.applyMark "A" "X" 12 100)).2 = none := by decide +kernel
 example : (step σm (.applyTxn "A" lateTxn)).2 = some .value := by decide +kernel
+example : (step σm (.applyTxn "A" freeTxn)).2 = some .value := by decide +kernel
 example : σm.entries.map (fun e => e.pf.positions.map (fun p => (p.asset, p.net))) =
     [[("X", 5), ("Y", 100)], []] := by decide +kernel
 example : (step σm (.applyTxn "A" lateTxn)).1.entries.map
       (fun e => e.pf.positions.map (fun p => (p.asset, p.net))) =
-    [[("X", 6), ("Y", 100)], []] := by decide +kernel
+    [[("X", 5), ("Y", 100)], []] := by decide +kernel
+example : (step σm (.applyTxn "A" freeTxn)).1.entries.map
+      (fun e => e.pf.positions.map (fun p => (p.asset, p.net))) =
+    [[("X", 5), ("Y", 100)], []] := by decide +kernel
 example : cashView (step σm (.applyTxn "A" lateTxn)).1 = cashView σm := by decide +kernel
+example : obs (step σm (.applyTxn "A" lateTxn)).1 = obs σm :=
+  C15_applyTxn_refused σm wf_σm "A" lateTxn .value (by decide +kernel)
+example : obs (step σm (.applyTxn "A" freeTxn)).1 = obs σm :=
+  C15_broker σm wf_σm _ .value (by simp) (by decide +kernel)
+/-- the refused transaction has moved clocks (A's portfolio clock 3 → 50), which `obs` does not contain -/
+example : (step σm (.applyTxn "A" lateTxn)).1.entries.map (fun e => e.pf.clock) = [50, 0]
+    ∧ σm.entries.map (fun e => e.pf.clock) = [3, 0] := by decide +kernel
 
 /-- Why `C15_sequences` is stated for runs of refused ops only: `obs`-equal states need not react alike.
 `pfSubscribe "A" 10 (-1)` is refused (negative amount) but has advanced A's clock to 10; the states before
@@ -517,10 +531,10 @@ noncomputable def mixed : List (Op ℚ) :=
 
 example : (acceptedOps σ mixed).length = 2 := by decide +kernel
 example : obs (run σ mixed) = obs (run σ [.pfSubscribe "A" 12 7, .subAcct 5]) := by
-  have h := C15_sequences σ wf_σ mixed (admissible_of_plain σ mixed (by
+  have h := C15_sequences σ wf_σ mixed (by
     intro o ho
     simp only [mixed, List.mem_cons, List.mem_nil_iff, or_false] at ho
-    rcases ho with rfl | rfl | rfl | rfl <;> exact ⟨by simp, by simp⟩))
+    rcases ho with rfl | rfl | rfl | rfl <;> simp)
   have h2 : acceptedOps σ mixed = [.pfSubscribe "A" 12 7, .subAcct 5] := by
     have e1 : (step σ (.pfSubscribe "A" 10 (-1))).2 = some .value := by decide +kernel
     have e2 : (step (step σ (.pfSubscribe "A" 10 (-1))).1 (.pfSubscribe "A" 12 7)).2 = none := by
@@ -532,5 +546,24 @@ example : obs (run σ mixed) = obs (run σ [.pfSubscribe "A" 12 7, .subAcct 5]) 
     simp only [mixed, acceptedOps, e1, e2, e3, e4]
   rw [h, h2]
 example : cashView (run σ mixed) = (405, [("A", -9559), ("B", 100)]) := by decide +kernel
+
+/-- `C15_sequences` on a run containing an `applyTxn` refused from inside `Position.transact` (formerly
+excluded by `Admissible`): `lateTxn` is refused, the purchase of 2 `X` at time 100 is accepted. -/
+noncomputable def okTxn : Txn ℚ := { asset := "X", qty := 2, time := 100, price := 12, commission := 0 }
+noncomputable def mixedTxn : List (Op ℚ) := [ .applyTxn "A" lateTxn, .applyTxn "A" okTxn ]
+
+example : obs (run σm mixedTxn) = obs (run σm [.applyTxn "A" okTxn]) := by
+  have h := C15_sequences σm wf_σm mixedTxn (by
+    intro o ho
+    simp only [mixedTxn, List.mem_cons, List.mem_nil_iff, or_false] at ho
+    rcases ho with rfl | rfl <;> simp)
+  have h2 : acceptedOps σm mixedTxn = [.applyTxn "A" okTxn] := by
+    have e1 : (step σm (.applyTxn "A" lateTxn)).2 = some .value := by decide +kernel
+    have e2 : (step (step σm (.applyTxn "A" lateTxn)).1 (.applyTxn "A" okTxn)).2 = none := by
+      decide +kernel
+    simp only [mixedTxn, acceptedOps, e1, e2]
+  rw [h, h2]
+example : (run σm mixedTxn).entries.map (fun e => e.pf.positions.map (fun p => (p.asset, p.net))) =
+    [[("X", 7), ("Y", 100)], []] := by decide +kernel
 
 end Qs.C15Example
